@@ -259,6 +259,20 @@ Qed.
 (* ------------------------------------------------------------------ replies *)
 Definition replies (a : action) : bool := match a with NoReply _ => false | _ => true end.
 
+(* the kind of action opcode [k] ends with on a well-formed request: silent exactly when the
+   opcode needs no answer, never an error reply with a substitute return value (those are the
+   decoding failures), and the ignored-result reply for DESTROY and only for DESTROY *)
+Definition action_kind_ok (k : N) (a : action) : bool :=
+  match a with
+  | NoReply _ => negb (needs_answer k)
+  | ReplyErr _ (Some _) => false
+  | ReplyOkIgnored _ => k =? 38
+  | _ => negb (k =? 38)
+  end.
+
+Lemma action_kind_replies k a : needs_answer k = true -> action_kind_ok k a = true -> replies a = true.
+Proof. intros Hn H. destruct a; cbn in *; try reflexivity. rewrite Hn in H. discriminate H. Qed.
+
 (* bytes an action needs in the reply buffer *)
 Definition action_size (a : action) : N :=
   match a with
